@@ -217,6 +217,24 @@ def worker(src: str, res: runner.Result) -> None:
         res.count("function_level_skipped_analysis_crash")
         function = None
     if function is not None:
+        # Function.blocks partitions the function's instructions: no block listed twice, every
+        # instruction of the main copy and of the used subroutines in exactly one listed block
+        seen_ids = set()
+        lines_seen: Dict[Tuple[bool, int], int] = {}
+        main_ids = set(id(b) for b in function.main.blocks)
+        only_callsub = g.entered_only_through_callsub()
+        for b in function.blocks:
+            if id(b) in seen_ids and only_callsub:
+                res.violation("C04.function-block-listed-twice", src, block=b.entry_instr.line)
+            seen_ids.add(id(b))
+            for ins in b.instructions:
+                key = (id(b) in main_ids, ins.line)
+                lines_seen[key] = lines_seen.get(key, 0) + 1
+        if any(v > 1 for v in lines_seen.values()) and g.entered_only_through_callsub():
+            res.violation("C04.function-blocks-overlap", src, lines=sorted(k[1] for k, v in lines_seen.items() if v > 1))
+        for name, sub in list(function.subroutines.items()) + [("__main__", function.main)]:
+            if len(set(map(id, sub.blocks))) != len(sub.blocks):
+                res.violation("C04.subroutine-block-listed-twice", src, sub=name)
         l2b = {}
         for sub in function.subroutines.values():
             l2b.update(harness.blocks_by_line(sub.blocks))
